@@ -1,11 +1,12 @@
 (* CommSumm_proofs.v — proofs about the model in CommSumm.v (C20).
 
    Main results
-     summarize_spec        : summarize es = Ok (spec es es) when no part carries a malformed Peer
-     hull_start/_end/_peers: the summary of a non-empty list of parts is their hull and the union of their peers
+     summarize_spec        : summarize es = Ok (spec es es) when no part carries a malformed Peer / Peers entry
+     hull_start/_end/_peers: the summary of a non-empty list of parts is their hull and the union of the peers they
+                             name in Peer and list in Peers
      one_slice_per_sequence, others_unchanged : the same in terms of uids
      two_phase             : Pipeline.run on collection;barrier;apply = summarize
-     error_branch          : the only exception is the ValueError of int(Peer)                                   *)
+     error_branch          : the only exception is the ValueError of int() on a Peer / an entry of Peers          *)
 From Coq Require Import ZArith QArith List Bool String Ascii Lia Sorted.
 Import ListNotations.
 From AiuModel Require Import Base Pipeline CommSumm.
@@ -79,8 +80,8 @@ Lemma collect1_ok q e : peer_ok e = true ->
              forall k, lookup k q' = if is_key k e then step (lookup k q) e else lookup k q.
 Proof.
   intros Hp. unfold collect1, peer_ok in *. destruct (candidate e) as [k0|] eqn:C.
-  - unfold add_to_sequence. destruct (e_peer e) eqn:P; try discriminate.
-    all: eexists; split; [reflexivity|]; intros k; rewrite (is_key_cand k _ _ C);
+  - unfold add_to_sequence. destruct (bad_peers e); [discriminate|].
+    eexists; split; [reflexivity|]; intros k; rewrite (is_key_cand k _ _ C);
       destruct (key_eqb k k0) eqn:E;
       [apply key_eqb_eq in E; subst k0; now rewrite lookup_qset_same | now apply lookup_qset_other].
   - exists q. split; [reflexivity|]. intros k. now rewrite (is_key_none k _ C).
@@ -278,27 +279,51 @@ Proof.
 Qed.
 Lemma peer_add_sorted p l : Sorted Z.lt l -> Sorted Z.lt (peer_add p l).
 Proof. destruct p; cbn [peer_add]; auto using set_add_sorted. Qed.
+Lemma entries_add_in ps : forall l x, In x (entries_add ps l) <-> In (PInt x) ps \/ In x l.
+Proof.
+  induction ps as [|p r IH]; intros l x; cbn [entries_add fold_left].
+  - cbn. intuition.
+  - fold (entries_add r (peer_add p l)). rewrite IH, peer_add_in. cbn [In]. intuition.
+Qed.
+Lemma entries_add_sorted ps : forall l, Sorted Z.lt l -> Sorted Z.lt (entries_add ps l).
+Proof.
+  induction ps as [|p r IH]; intros l S; cbn [entries_add fold_left]; [exact S|].
+  fold (entries_add r (peer_add p l)). apply IH. now apply peer_add_sorted.
+Qed.
+Lemma peers_add_in e l x : In x (peers_add e l) <-> names e x \/ In x l.
+Proof. unfold peers_add, names. rewrite entries_add_in, peer_add_in. intuition. Qed.
+Lemma names_iff p z :
+  names p z <-> (e_peer p = PInt z \/ exists pl, e_peers p = Some pl /\ In (PInt z) pl).
+Proof.
+  unfold names, listed. destruct (e_peers p) as [pl|]; split.
+  - intros [H|H]; [now left | right; now exists pl].
+  - intros [H|(pl' & E & H)]; [now left | right; inversion E; now subst].
+  - intros [H|[]]. now left.
+  - intros [H|(pl' & E & _)]; [now left | discriminate].
+Qed.
+Lemma peers_add_sorted e l : Sorted Z.lt l -> Sorted Z.lt (peers_add e l).
+Proof. intros S. unfold peers_add. now apply entries_add_sorted, peer_add_sorted. Qed.
 
 Lemma fold_peers ps : forall d0 d, fold_left step ps (Some d0) = Some d -> Sorted Z.lt (q_peers d0) ->
   Sorted Z.lt (q_peers d) /\
-  forall z, In z (q_peers d) <-> In z (q_peers d0) \/ exists p, In p ps /\ e_peer p = PInt z.
+  forall z, In z (q_peers d) <-> In z (q_peers d0) \/ exists p, In p ps /\ names p z.
 Proof.
   induction ps as [|p r IH]; intros d0 d H S.
   - cbn in H. inversion H. subst. split; [exact S|]. intros z. split; [now left | intros [?|(? & [] & _)]; assumption].
   - cbn [fold_left] in H. unfold step at 2 in H.
-    destruct (IH _ _ H) as [S' M]; [cbn [step_d q_peers]; now apply peer_add_sorted|].
-    split; [exact S'|]. intros z. rewrite M. cbn [step_d q_peers]. rewrite peer_add_in. split.
+    destruct (IH _ _ H) as [S' M]; [cbn [step_d q_peers]; now apply peers_add_sorted|].
+    split; [exact S'|]. intros z. rewrite M. cbn [step_d q_peers]. rewrite peers_add_in. split.
     + intros [[Hp|Hd]|(x & Hx & Px)]; [right; exists p; split; [now left | exact Hp] | now left |
                                        right; exists x; split; [now right | exact Px]].
     + intros [Hd|(x & [<-|Hx] & Px)]; [left; now right | left; now left | right; now exists x].
 Qed.
 Theorem hull_peers ps d : summary_of ps = Some d ->
-  Sorted Z.lt (q_peers d) /\ forall z, In z (q_peers d) <-> exists p, In p ps /\ e_peer p = PInt z.
+  Sorted Z.lt (q_peers d) /\ forall z, In z (q_peers d) <-> exists p, In p ps /\ names p z.
 Proof.
   destruct ps as [|p0 r]; [discriminate|]. unfold summary_of. cbn [fold_left]. unfold step at 2. intros H.
   destruct (fold_peers _ _ _ H) as [S M].
-  { cbn [step_d q_peers]. apply peer_add_sorted. constructor. }
-  split; [exact S|]. intros z. rewrite M. cbn [step_d q_peers]. rewrite peer_add_in. cbn [In]. split.
+  { cbn [step_d q_peers]. apply peers_add_sorted. constructor. }
+  split; [exact S|]. intros z. rewrite M. cbn [step_d q_peers]. rewrite peers_add_in. cbn [In]. split.
   - intros [[Hp|[]]|(x & Hx & Px)]; [exists p0; split; [now left | exact Hp] | exists x; split; [now right | exact Px]].
   - intros (x & [<-|Hx] & Px); [left; now left | right; now exists x].
 Qed.
@@ -467,7 +492,7 @@ Proof.
   cbn [forallb] in H. cbn [collect_all]. destruct (peer_ok e) eqn:P.
   - destruct (collect1_ok q e P) as (q1 & E1 & _). rewrite E1. cbn [andb] in H. now apply IH.
   - unfold collect1, peer_ok in *. destruct (candidate e); [|discriminate].
-    unfold add_to_sequence. destruct (e_peer e); try discriminate. reflexivity.
+    unfold add_to_sequence. destruct (bad_peers e); [reflexivity | discriminate].
 Qed.
 Theorem error_branch es : forallb peer_ok es = false -> summarize es = Err "ValueError".
 Proof. intros H. unfold summarize. now rewrite (collect_all_err es H). Qed.
